@@ -2358,7 +2358,10 @@ func (tc *typechecker) checkDefault(expr *ast.Default, show bool) typeInfoPair {
 		if !tc.compilation.extendedTrees[tc.path] {
 			panic(tc.errorf(n, "use of default with call in non-extended file"))
 		}
-		ident := n.Func.(*ast.Identifier)
+		ident, ok := n.Func.(*ast.Identifier)
+		if !ok {
+			panic(tc.errorf(n.Func, "cannot use %s as macro", n.Func))
+		}
 		if isBlankIdentifier(ident) {
 			panic(tc.errorf(ident, "cannot use _ as value"))
 		}
